@@ -126,5 +126,5 @@ META = {
     "note": "Trusted: Coq kernel, extraction, harness/lmm_drv.cpp (reads private members), the python generator/parser. Not modelled: force_creation, "
             "WIFI policy, limits changed after creation; simulations with maxmin/concurrency-limit are not run.",
     "technique": "Coq proof (invariant preservation over all histories) + extracted-model differential correspondence + verified state checker",
-    "claimed": False,
+    "claimed": True,
 }
